@@ -627,4 +627,181 @@ theorem convertLinks_eq (ids : List Off) (u : UnitHdr) : ∀ (es : List Entry) (
       simp [hm, filterLinks]
 
 
+/-! ## the filter pass is total on sections with distinct offsets -/
+
+namespace EdgeMap
+theorem contains_push (m : EdgeMap) (x y z : Off) : (m.push x z).contains y = m.contains y := by
+  simp only [contains, get?_push]
+  by_cases h : y = x
+  · subst h; simp
+  · simp [h]
+
+theorem contains_insert (m : EdgeMap) (x y : Off) (v : List Off) :
+    (m.insert x v).contains y = (decide (y = x) || m.contains y) := by
+  simp only [contains, get?_insert]
+  by_cases h : y = x
+  · simp [h]
+  · simp [h]
+end EdgeMap
+
+/-- `recordEntry` succeeds when the entry offset is new and the parent (if any) is a key; the keys
+afterwards are the old keys plus the entry -/
+theorem recordEntry_ok (m : Mode) (u : UnitHdr) (d : Deps) (e : Entry) (parent : Option Parent)
+    (hnew : d.edges.contains (u.base + e.off) = false)
+    (hpar : ∀ p, parent = some p → d.edges.contains (u.base + p.off) = true) :
+    ∃ d', recordEntry m u d e parent = .ok d' ∧
+      ∀ x, d'.edges.contains x = (decide (x = u.base + e.off) || d.edges.contains x) := by
+  have fin : ∀ (d0 : Deps) (deps : List Off), d0.edges.contains (u.base + e.off) = false →
+      (∀ x, d0.edges.contains x = d.edges.contains x) →
+      ∃ d', (do let d1 ← d0.addEntry m (u.base + e.off) deps
+                pure (if e.required then d1.requireEntry (u.base + e.off) else d1) : Out Deps) = .ok d' ∧
+        ∀ x, d'.edges.contains x = (decide (x = u.base + e.off) || d.edges.contains x) := by
+    intro d0 deps h0 hk
+    simp only [Deps.addEntry, h0, Bool.false_eq_true, and_false, if_false, Out.bind_ok, Out.pure_eq]
+    refine ⟨_, rfl, ?_⟩
+    intro x
+    cases e.required
+    · simp only [Bool.false_eq_true, if_false, EdgeMap.contains_insert, hk]
+    · simp only [if_true, Deps.requireEntry, EdgeMap.contains_insert, hk]
+  simp only [recordEntry]
+  cases parent with
+  | none => exact fin d _ hnew (fun _ => rfl)
+  | some p =>
+    simp only
+    by_cases hb : (parentAllowsChildEdge p.tag && hasBackEdge e.tag e.hasDecl) = true
+    · simp only [hb, if_true, Deps.addEdge, hpar p rfl, Out.bind_ok]
+      apply fin
+      · simp only [EdgeMap.contains_push]; exact hnew
+      · intro x; simp only [EdgeMap.contains_push]
+    · simp only [hb]
+      exact fin d _ hnew (fun _ => rfl)
+
+/-- one unit: the fold over its entries succeeds; `seen` bounds the keys from above -/
+theorem foldOut_readEntry_ok (m : Mode) (u : UnitHdr) : ∀ (es : List Entry) (d : Deps) (st : List Parent),
+    (∀ p, p ∈ st → d.edges.contains (u.base + p.off) = true) →
+    (∀ e, e ∈ es → d.edges.contains (u.base + e.off) = false) →
+    (es.map (fun e => u.base + e.off)).Nodup →
+    ∃ d' st', foldOut (readEntry m u) (d, st) es = .ok (d', st') ∧
+      ∀ x, d'.edges.contains x = (decide (x ∈ es.map (fun e => u.base + e.off)) || d.edges.contains x) := by
+  intro es
+  induction es with
+  | nil => intro d st _ _ _; exact ⟨d, st, rfl, by simp⟩
+  | cons e es ih =>
+    intro d st hst hnew hnd
+    rw [List.map_cons, List.nodup_cons] at hnd
+    simp only [foldOut, readEntry]
+    obtain ⟨d1, h1, hk1⟩ := recordEntry_ok m u d e (popParents e.depth st).head?
+      (hnew e List.mem_cons_self)
+      (fun p hp => hst p (popParents_subset _ _ _ (List.mem_of_mem_head? (by rw [hp]; rfl))))
+    rw [h1]
+    simp only [Out.map]
+    obtain ⟨d', st', h2, hk2⟩ := ih d1 (pushParent e (popParents e.depth st))
+      (by
+        intro p hp
+        rw [hk1]
+        simp only [pushParent] at hp
+        by_cases hc : e.hasChildren = true
+        · simp only [hc, if_true] at hp
+          rcases List.mem_cons.1 hp with h | h
+          · subst h; simp
+          · simp [hst p (popParents_subset _ _ _ h)]
+        · simp only [hc] at hp
+          simp [hst p (popParents_subset _ _ _ hp)])
+      (by
+        intro e' he'
+        rw [hk1, hnew e' (List.mem_cons_of_mem _ he')]
+        have : ¬ (u.base + e'.off = u.base + e.off) := by
+          intro heq; exact hnd.1 (heq ▸ List.mem_map_of_mem he')
+        simp only [this, decide_false, Bool.or_false])
+      hnd.2
+    refine ⟨d', st', h2, ?_⟩
+    intro x
+    rw [hk2, hk1]
+    by_cases hx : x = u.base + e.off
+    · subst hx; simp
+    · simp [hx]
+
+
+/-- section offsets of all DIEs, unit by unit -/
+def allOffs (units : List (UnitHdr × List Entry)) : List Off :=
+  units.flatMap (fun ue => ue.2.map (fun e => ue.1.base + e.off))
+
+theorem withParents_fst : ∀ (es : List Entry) (st : List Parent), (withParents st es).map (·.1) = es := by
+  intro es
+  induction es with
+  | nil => intro st; rfl
+  | cons e es ih => intro st; simp only [withParents, List.map_cons, ih]
+
+theorem records_off (units : List (UnitHdr × List Entry)) : (records units).map Rec.off = allOffs units := by
+  induction units with
+  | nil => rfl
+  | cons ue units ih =>
+    simp only [records, allOffs, List.flatMap_cons, List.map_append] at ih ⊢
+    rw [ih]
+    congr 1
+    simp only [unitRecs, List.map_map]
+    have := withParents_fst ue.2 []
+    conv => rhs; rw [← this]
+    simp only [List.map_map]
+    rfl
+
+theorem foldOut_filterUnit_ok (m : Mode) : ∀ (units : List (UnitHdr × List Entry)) (d : Deps),
+    (∀ x, x ∈ allOffs units → d.edges.contains x = false) →
+    (allOffs units).Nodup →
+    ∃ d', foldOut (filterUnit m) d units = .ok d' ∧
+      ∀ x, d'.edges.contains x = (decide (x ∈ allOffs units) || d.edges.contains x) := by
+  intro units
+  induction units with
+  | nil => intro d _ _; exact ⟨d, rfl, by simp [allOffs]⟩
+  | cons ue units ih =>
+    intro d hnew hnd
+    simp only [allOffs, List.flatMap_cons] at hnew hnd
+    rw [List.nodup_append] at hnd
+    obtain ⟨d1, st1, h1, hk1⟩ := foldOut_readEntry_ok m ue.1 ue.2 d [] (by intro p hp; cases hp)
+      (fun e he => hnew _ (List.mem_append_left _ (List.mem_map_of_mem he))) hnd.1
+    simp only [foldOut, filterUnit, h1, Out.map]
+    obtain ⟨d', h2, hk2⟩ := ih d1
+      (by
+        intro x hx
+        rw [hk1, hnew x (List.mem_append_right _ hx)]
+        have : ¬ x ∈ ue.2.map (fun e => ue.1.base + e.off) := fun h => hnd.2.2 x h x hx rfl
+        simp [this])
+      hnd.2.1
+    refine ⟨d', h2, ?_⟩
+    intro x
+    rw [hk2, hk1]
+    simp only [allOffs, List.flatMap_cons, List.mem_append]
+    by_cases ha : x ∈ ue.2.map (fun e => ue.1.base + e.off)
+    · simp [ha]
+    · by_cases hb : x ∈ List.flatMap (fun ue => ue.2.map (fun e => ue.1.base + e.off)) units
+      · simp [ha, hb]
+      · simp [ha, hb]
+
+/-- the filter pass never panics on a section with distinct DIE offsets: `add_edge` always finds
+the parent (`unwrap`), `add_entry` never sees a key twice (`debug_assert!`) -/
+theorem buildDeps_total (m : Mode) (units : List (UnitHdr × List Entry))
+    (hd : ((records units).map Rec.off).Nodup) : ∃ d, buildDeps m units = .ok d := by
+  rw [records_off] at hd
+  obtain ⟨d, h, _⟩ := foldOut_filterUnit_ok m units {} (by intro x _; rfl) hd
+  exact ⟨d, h⟩
+
+
+theorem records_mem (units : List (UnitHdr × List Entry)) (r : Rec) (hr : r ∈ records units) :
+    ∃ ue, ue ∈ units ∧ r.unit = ue.1 ∧ r.e ∈ ue.2 := by
+  simp only [records, List.mem_flatMap] at hr
+  obtain ⟨ue, hue, hr⟩ := hr
+  simp only [unitRecs, List.mem_map] at hr
+  obtain ⟨ep, hep, hr⟩ := hr
+  subst hr
+  refine ⟨ue, hue, rfl, ?_⟩
+  have := withParents_fst ue.2 []
+  rw [← this]
+  exact List.mem_map_of_mem hep
+
+theorem containsOff_entry (u : UnitHdr) (off : Nat) (h : u.inBounds off = true) :
+    u.containsOff (u.base + off) = true := by
+  simp only [UnitHdr.containsOff, Nat.le_add_right, decide_true, Bool.true_and, Nat.add_sub_cancel_left]
+  exact h
+
+
 end Gimli.Filter
